@@ -11,7 +11,7 @@ from typing import Dict, List, Optional
 
 from fsa.effects import direct_writes, local_aliases_of
 from fsa.match import dotted, is_call, is_const, is_self_call, is_super_call, kwarg, method_call, has_star_args, has_star_kwargs
-from fsa.source import iter_own_nodes, stmt_key, text
+from fsa.source import Unsupported, iter_own_nodes, stmt_key, text
 from rules.common import Fn
 
 T = 'fsic.extensions.model.TracerMixin'
@@ -135,6 +135,39 @@ def r3_confinement(R) -> None:
     R.check(ok, pq, 'trace_period-delegates', 'trace_period delegates to trace_t at the located position', 'trace_period does not call self.trace_t(t, label, ...)', where=pf.fi.where)
 
 
+def r5_trace_names(R) -> None:
+    """Which variables `trace=` names: a single name (str) means that one variable, a sequence means its elements.
+    A str is itself a Sequence, so wherever the argument is used *as the sequence of names* it must be known not to be a
+    str.  Read on the gated value of what the snapshot iterates over (helper methods read through)."""
+    from fsa.gated import canon, leaves
+    q = f'{T}.trace_t'
+    f = Fn(R, q)
+    se = f.symexec(methods=True)
+    comps = []
+    for n in f.cfg.nodes:
+        if n.kind == 'stmt' and n.ast is not None:
+            for x in ast.walk(n.ast):
+                if isinstance(x, (ast.ListComp, ast.GeneratorExp)) and any(isinstance(y, ast.Subscript) and text(y.value).startswith('self[') for y in ast.walk(x.elt)):
+                    comps.append((n, x))
+    if not comps:
+        raise Unsupported(f'{q}: the snapshot comprehension over the traced names was not found')
+    n, lc = comps[0]
+    v = canon(se.value(n.ast, lc.generators[0].iter))
+    bad = []
+    single = False
+    for (facts, leaf) in leaves(v):
+        fx = [(text(a_), tr) for (a_, tr) in facts]
+        raw = text(leaf) in ('trace', 'list(trace)', 'tuple(trace)')
+        if raw and ('isinstance(trace, str)', False) not in fx:
+            bad.append((fx, text(leaf)))
+        if text(leaf) in ('[trace]', '(trace,)', 'list([trace])') and ('isinstance(trace, str)', True) in fx:
+            single = True
+    R.check(not bad, q, 'names-sequence-not-str', 'the argument is used as the sequence of names only when it is not a str',
+            f'the traced names are `{bad[0][1] if bad else ""}` under {bad[0][0] if bad else ""}: a single name given as a str (trace=\'YD\') is iterated character by character',
+            where=f.where(n))
+    R.check(single, q, 'names-single-str', 'a str names exactly that one variable', 'no `[trace]` for a str argument', where=f.where(n))
+
+
 def r4_label_order(R) -> None:
     want = {
         'solve_t': [("'start'", 'before')],
@@ -179,6 +212,7 @@ def run(R) -> None:
     R.rule('C17.R2', lambda: r2_off_means_off(R))
     R.rule('C17.R3', lambda: r3_confinement(R))
     R.rule('C17.R4', lambda: r4_label_order(R))
+    R.rule('C17.R5', lambda: r5_trace_names(R))
 
 
 def run_thorough(R) -> None:
